@@ -12,7 +12,9 @@ RULE = ("K: (a) parity / mirror-map / Poynting-parity tables: every (field kind,
         "outside {-1,0,1}, bad field kind); (d) fdtdx.unfold_array on random layouts (with/without component axis, "
         "array/scalar/absent signs, on-plane subsets); (e) fdtdx.unfold_detector_states on placed reduced scenes "
         "(place_objects with config.symmetry) holding Field/Phasor/Energy/PoyntingFlux/PhasorPoyntingFlux detectors with "
-        "random component subsets, reduce_volume, exact_interpolation, as_slices, keep_all_components, propagation axis, "
+        "random component subsets given in canonical, shuffled and reversed tuple order (every scene carries one Field and one "
+        "Phasor detector crossing all planes with a NON-canonical tuple whose parities differ from the stored order, spatial and "
+        "reduce_volume alternating; the stored slot order is read off the detector's own update() on constant probe fields), reduce_volume, exact_interpolation, as_slices, keep_all_components, propagation axis, "
         "boxes straddling / touching / inside the kept half per axis, random recorded states. All outputs compared "
         "exactly (values are copies and sign flips / factors 0,1,2,4,8). Independent numpy oracle on every array case: "
         "upper half == input (values and dtype), doubled extent, mirror index map + documented parity; for reduce_volume "
@@ -391,6 +393,12 @@ def det_specs(rng, sym, vshape, ndet):
             comps = sorted(rng.shuffle(list(range(6)))[:k])
             if rng.chance(0.3):
                 comps = list(range(6))
+            # `comps` is the USER's tuple order; the detector stores canonically whatever the order
+            order = rng.choice(["canonical", "shuffled", "reversed"])
+            if order == "reversed":
+                comps = comps[::-1]
+            elif order == "shuffled":
+                comps = rng.shuffle(comps)
             sp["comps"] = comps
             sp["reduce"] = rng.chance(0.35)
         elif kind == "energy":
@@ -408,7 +416,7 @@ def det_specs(rng, sym, vshape, ndet):
     return specs
 
 
-def scene_case(rng, sym, ndet):
+def scene_case(rng, sym, ndet, variant=0):
     vshape = [rng.choice([2, 4, 4, 6]) if sym[a] != 0 else rng.randint(2, 5) for a in range(3)]
     dets = det_specs(rng, sym, vshape, ndet)
     # one summed and one averaged record that cross EVERY symmetry plane (factors 2^count, prod over all axes)
@@ -420,8 +428,36 @@ def scene_case(rng, sym, ndet):
             sp["reduce"] = True
             if sp["kind"] == "energy":
                 sp["slices"] = False
+    dets += noncanonical_dets(rng, sym, vshape, variant)
     return {"op": "scene", "sym": list(sym), "vshape": vshape, "dets": dets,
             "seed": rng.randint(0, 2 ** 31 - 1), "eager": rng.chance(0.25)}
+
+
+def parity_rows(comps, sym):
+    return [[o_parity("E" if i < 3 else "H", i % 3, a, sym[a]) for i in comps] for a in range(3) if sym[a] != 0]
+
+
+def noncanonical_dets(rng, sym, vshape, variant):
+    """one FieldDetector and one PhasorDetector crossing every plane whose `components` tuple is NOT in canonical
+    order (reversed / shuffled), chosen so that the parities in tuple order differ from those in stored order;
+    spatial and reduce_volume alternate with `variant`"""
+    out = []
+    for k, kind in enumerate(("field", "phasor")):
+        mode = ["reversed", "shuffled"][(variant + k) % 2]
+        while True:
+            if mode == "reversed":
+                n = rng.choice([2, 3, 4, 6])
+                comps = sorted(rng.shuffle(list(range(6)))[:n])[::-1]
+            else:
+                n = rng.choice([3, 4, 5, 6])
+                comps = rng.shuffle(rng.shuffle(list(range(6)))[:n])
+            if comps != sorted(comps) and parity_rows(comps, sym) != parity_rows(sorted(comps), sym):
+                break
+        lo = [0 if sym[a] != 0 else rng.randint(0, vshape[a] - 1) for a in range(3)]
+        hi = [vshape[a] if sym[a] != 0 else rng.randint(lo[a] + 1, vshape[a]) for a in range(3)]
+        out.append({"name": f"nc{k}", "kind": kind, "lo": lo, "hi": hi, "exact": rng.chance(0.5), "comps": comps,
+                    "reduce": bool((variant // 2 + k) % 2), "order": mode})
+    return out
 
 
 def build_scene(case):
@@ -479,9 +515,47 @@ def model_det_line(sp, touched, o, c, shp, vals):
             f"{o} {c} {shp[0]} {shp[1]} {shp[2]} " + " ".join(f2h(v) for v in vals))
 
 
-def det_component_parities(sp, a, w):
+PROBE = (2.0, 3.0, 5.0, 7.0, 11.0, 13.0)     # Ex, Ey, Ez, Hx, Hy, Hz
+
+
+def stored_order(det, state):
+    """which field component sits in which slot of the detector's record, found by RUNNING the detector's own
+    update on fields where every component is a distinct constant (independent of the unfolding code)"""
+    j = J()
+    jnp = j["jnp"]
+    import numpy as _np
+    gs = tuple(det.grid_shape)
+    zero = {k: jnp.zeros_like(v) for k, v in state.items()}
+
+    upd = j["jax"].jit(lambda E, H, t: det.update(t, E, H, zero, 1.0, 1.0))
+
+    def slots(consts):
+        import warnings
+        E = jnp.stack([jnp.full(gs, consts[c], dtype=jnp.float32) for c in range(3)])
+        H = jnp.stack([jnp.full(gs, consts[3 + c], dtype=jnp.float32) for c in range(3)])
+        for t in (0, 1):
+            with warnings.catch_warnings():
+                warnings.simplefilter("ignore")
+                out = upd(E, H, jnp.asarray(t, dtype=jnp.int32))
+            a = _np.asarray(out["fields"])[0] if "fields" in out else _np.asarray(out["phasor"])[0, 0]
+            v = _np.asarray([a[c].ravel()[0] for c in range(a.shape[0])])
+            if _np.all(v != 0):
+                return v
+        raise RuntimeError(f"probe of {det.name} recorded zeros")
+
+    ratio = slots(PROBE) / slots((1.0,) * 6)        # the second run measures the detector's own scale per slot
+    idx = []
+    for r in ratio:
+        hit = [i for i, pc in enumerate(PROBE) if abs(r - pc) < 1e-4 * pc]
+        if len(hit) != 1:
+            raise RuntimeError(f"cannot identify the stored component order of {det.name}: {ratio}")
+        idx.append(hit[0])
+    return idx
+
+
+def det_component_parities(sp, a, w, stored=None):
     if sp["kind"] in ("field", "phasor", "phasorflux"):
-        comps = sp.get("comps", list(range(6)))
+        comps = stored if stored is not None else sorted(sp.get("comps", list(range(6))))
         return [o_parity("E" if i < 3 else "H", i % 3, a, w) for i in comps]
     if sp["kind"] == "energy":
         return [1]
@@ -515,6 +589,16 @@ def eval_scene(ctx, case, compare=True):
         return f"place_objects raised {type(e).__name__}: {str(e)[:200]}"
     rng = Rng(case["seed"])
     byname = {d.name: d for d in oc.detectors}
+    stored = {}
+    for sp in case["dets"]:
+        if sp["kind"] in ("field", "phasor") and sp["name"] in byname and sp["name"] in arrays.detector_states:
+            stored[sp["name"]] = stored_order(byname[sp["name"]], arrays.detector_states[sp["name"]])
+            ctx.impl_property_evals += 1
+            if sorted(stored[sp["name"]]) != sorted(sp["comps"]):
+                return f"{sp['name']}: record holds components {stored[sp['name']]}, requested {sp['comps']}"
+            if compare and stored[sp["name"]] != sorted(sp["comps"]):
+                # the model (like _stored_component_spec) assumes the canonical Ex..Hz storage order
+                ctx.mismatch("stored-order", {**case, "det": sp["name"]}, {"impl": stored[sp["name"]], "model": sorted(sp["comps"])})
     states, raw = {}, {}
     for sp in case["dets"]:
         st = arrays.detector_states.get(sp["name"])
@@ -563,9 +647,11 @@ def eval_scene(ctx, case, compare=True):
         if real_t != exp_t:
             return f"{sp['name']}: planes seen {real_t}, box {sp['lo']}..{sp['hi']} in {vshape} crosses {exp_t}"
         st_in, st_out = states[sp["name"]], out.detector_states[sp["name"]]
-        ntkey = (sp["kind"], tuple(exp_t), bool(sp.get("reduce")), bool(sp.get("slices")), sp["exact"], bool(sp.get("keep_all")))
+        ntkey = (sp["kind"], tuple(exp_t), bool(sp.get("reduce")), bool(sp.get("slices")), sp["exact"], bool(sp.get("keep_all")),
+                 "comps" in sp and sp["comps"] != sorted(sp["comps"]))
         ctx.case(sample=None, nontrivial=ntkey if any(exp_t) else None, op="det", kind=sp["kind"],
-                 touched=sum(1 for t in exp_t if t), reduce=bool(sp.get("reduce")))
+                 touched=sum(1 for t in exp_t if t), reduce=bool(sp.get("reduce")),
+                 component_order=("n/a" if "comps" not in sp else "canonical" if sp["comps"] == sorted(sp["comps"]) else "non-canonical"))
         if set(st_in) != set(st_out):
             return f"{sp['name']}: state keys changed"
         if not any(exp_t):
@@ -622,7 +708,7 @@ def eval_scene(ctx, case, compare=True):
                 for a in range(3):
                     if exp_t[a] == 0:
                         continue
-                    par = np.asarray(det_component_parities(sp, a, exp_t[a]), dtype=np.float64)
+                    par = np.asarray(det_component_parities(sp, a, exp_t[a], stored.get(sp["name"])), dtype=np.float64)
                     ax = full.ndim - 3 + a
                     if sp["kind"] in ("field", "phasor") or (sp["kind"] == "poynting" and sp["keep_all"]):
                         par = par.reshape((-1, 1, 1, 1))
@@ -646,7 +732,7 @@ def eval_scene(ctx, case, compare=True):
                     return f"{sp['name']}: extent along {'xyz'[a]} not doubled ({n_in.shape[2 + a]} -> {n_out.shape[2 + a]})"
                 sl = [slice(None)] * 5
                 sl[2 + a] = slice(n_out.shape[2 + a] // 2, None)
-                par = np.asarray(det_component_parities(sp, a, exp_t[a]), dtype=np.float64).reshape((1, -1, 1, 1, 1))
+                par = np.asarray(det_component_parities(sp, a, exp_t[a], stored.get(sp["name"])), dtype=np.float64).reshape((1, -1, 1, 1, 1))
                 d = check_mirror(n_out, n_out[tuple(sl)], 2 + a, par, a in onp)
                 if d:
                     return f"{sp['name']} ({sp['kind']}) across the {'xyz'[a]}-plane (wall {exp_t[a]}): {d}"
@@ -698,10 +784,12 @@ def run(ctx):
     flush(ctx)
     # detector scenes: every symmetry tuple in the thorough tier, a seed-dependent subset in the quick tier
     syms = list(ALL_SYMS) if ctx.thorough else ctx.rng.shuffle(ALL_SYMS)[:6]
-    if not ctx.thorough:  # always keep one triple-plane and one pure-electric scene
-        syms = syms[:4] + [ctx.rng.choice([(-1, -1, -1), (-1, 1, -1), (1, -1, 1)]), ctx.rng.choice([(-1, 0, 0), (0, -1, 0)])]
-    for sym in syms:
-        case = scene_case(ctx.rng, sym, ctx.scale(7, 12))
+    if not ctx.thorough:  # always keep a triple-plane, a pure-electric, a pure-magnetic and a mixed scene
+        syms = syms[:2] + [ctx.rng.choice([(-1, -1, -1), (-1, 1, -1), (1, -1, 1)]), ctx.rng.choice([(-1, 0, 0), (0, -1, 0)]),
+                           ctx.rng.choice([(1, 0, 0), (0, 0, 1), (1, 1, 0)]), ctx.rng.choice([(0, 1, -1), (-1, 0, 1)])]
+    for k, sym in enumerate(syms):
+        # every scene also carries a Field and a Phasor detector with a NON-canonical components tuple (variant k)
+        case = scene_case(ctx.rng, sym, ctx.scale(5, 12), variant=k)
         d = eval_scene(ctx, case)
         if d:
             ctx.violation(case, d)
@@ -747,7 +835,7 @@ def search(ctx, hints):
             return
     for ndet in (2, 5, 10):
         for sym in ALL_SYMS:
-            case = scene_case(rng, sym, ndet)
+            case = scene_case(rng, sym, ndet, variant=rng.randint(0, 3))
             d = eval_scene(ctx, case, compare=False)
             if d:
                 ctx.violation(case, d)
